@@ -9,4 +9,5 @@ cp -r /repo/flowjax "$dir/flowjax"
 ( cd "$dir" && patch -p1 -s --no-backup-if-mismatch < "$patch" ) || { echo "PATCH-FAILED $patch"; exit 3; }
 out=$(cd /verif && VERIF_REPO="$dir" ./check "$prop" "$tier" 2>&1); rc=$?
 echo "$out" | grep -E "VIOLATION|mechanism=|INCONCLUSIVE|^\[" | head -8
+echo "$out" | grep "by mechanism" | head -1
 case $rc in 1) echo "CAUGHT $prop $(basename $patch)";; 0) echo "MISSED $prop $(basename $patch)";; *) echo "INCONCLUSIVE($rc) $prop $(basename $patch)";; esac
